@@ -13,7 +13,7 @@ import numpy as np
 
 from .. import gen, probes
 from ..common import Outcome, subseed
-from ..oracles import EPS, dense_bfgs, dense_from_compact, model_tol, model_value, ref_gcp
+from ..oracles import EPS, dense_bfgs, dense_from_compact, middle_cond, model_tol, model_value, ref_gcp
 
 LEVEL = "exploration"
 RULE = ("synthetic: every structural pattern per variable {at lb, interior, at ub} x {g<0, g=0, g>0} x {both bounds, lower only, "
@@ -55,6 +55,11 @@ def judge_gcp(out, x, g, lb, ub, mats, B, xcp, c, where, tags):
     if not np.isfinite(kappa) or kappa > KMAX:
         out.count("skipped_ill_conditioned")
         return False
+    kmid = middle_cond(mats)
+    if kmid > 1e12:
+        out.count("skipped_ill_conditioned_memory")  # (numerically) dependent pairs: products with the compact form carry no accuracy
+        return False
+    kappa = kappa + kmid
     try:
         ref = ref_gcp(x, g, lb, ub, B)
     except RuntimeError:
